@@ -22,6 +22,13 @@ def letter_tests(g, fmtp):
                 out.append((n, {chr(other[1])}, c[1] == '=='))
         elif c[0] == 'call' and ir.callee_name(c) == 'strchr' and len(c[2]) == 2 and c[2][1] == cur and c[2][0][0] == 'str':
             out.append((n, set(c[2][0][1]), True))
+    # the same skip written with the library idiom: fmt += strcspn(fmt, "set")
+    for n in g.live():
+        if n['kind'] == 'cond' or n['expr'] is None:
+            continue
+        for c in ir.calls(n['expr']):
+            if ir.callee_name(c) == 'strcspn' and len(c[2]) == 2 and ir.canon(c[2][0]) == ir.canon(fmtp) and ir.top_nocast(c[2][1])[0] == 'str':
+                out.append((n, set(ir.top_nocast(c[2][1])[1]), True))
     return out
 
 
@@ -136,15 +143,26 @@ def check_print(P, ctx):
     ma = [c for n in g.live() if n['expr'] is not None for c in ir.calls(n['expr']) if ir.callee_name(c) == 'malloc']
     ok = len(ma) == 1 and poly.from_expr(N.canon(ma[0][2][0])) == poly.Poly.atom('strlen(arg2)') + poly.Poly.const(1)
     span = poly.Poly.atom('arg2') - poly.Poly.atom('start')
+    sdefs = util.single_defs(fn)
+
+    def one_level(e):
+        """a length held in a local that is defined once (size_t n = fmt - start) stands for its definition"""
+        t = ir.top_nocast(e)
+        if t[0] == 'local' and len(t) > 2 and t[2] in sdefs and t[1] not in ('start', 'fmt_buf'):
+            return sdefs[t[2]]
+        return e
+
+    def one_level_deep(e):
+        return ir.rebuild(e, lambda x: ir.nocast(one_level(x)) if x[0] == 'local' and len(x) > 2 else x)
     for n in g.live():
         if n['expr'] is None:
             continue
         for ev in util.expr_events(n['expr'], n):
             if ev['t'] == 'call' and ev['name'] == 'memcpy' and N.canon(ev['args'][0]) == ('local', 'fmt_buf'):
-                ln = poly.from_expr(N.canon(ev['args'][2]))
+                ln = poly.from_expr(N.canon(one_level_deep(ev['args'][2])))
                 ok = ok and (ln - span).const_value() in (0, 1) and N.canon(ev['args'][1]) == ('local', 'start')
             if ev['t'] == 'write':
-                l = N.canon(ev['lhs'])
+                l = N.canon(one_level_deep(ev['lhs']))
                 if l[0] == 'idx' and l[1] == ('local', 'fmt_buf'):
                     ix = poly.from_expr(l[2])
                     ok = ok and (ix - span).const_value() in (0, 1) and util.const_int(ev['rhs']) == 0
